@@ -35,7 +35,7 @@ func init() {
 		Run: run,
 		Floors: func(t string) map[string]int64 {
 			return map[string]int64{"api.struct": 100, "api.fields": 100, "kind.Point": 8, "kind.MultiPoint": 8, "kind.LineString": 8, "kind.MultiLineString": 8, "kind.Polygon": 8, "kind.*Bounds": 8,
-				"records.compared": 3000, "string.last_column": 50, "string.with_edge_blanks": 200, "ring.unclosed": 200, "ring.unclosed_by_a_hair": 100, "file.empty": 3, "column.string": 100, "column.int": 100, "column.float": 100, "string.at_field_width": 20, "schema.crossed_tags_and_names": 20, "decode.alternating_record_types": 30, "box.degenerate": 50, "file.more_than_1000_records": 1}
+				"records.compared": 3000, "string.last_column": 50, "string.with_edge_blanks": 200, "ring.unclosed": 200, "ring.unclosed_by_a_hair": 100, "file.empty": 3, "column.string": 100, "column.int": 100, "column.float": 100, "string.at_field_width": 20, "schema.crossed_tags_and_names": 20, "decode.alternating_record_types": 30, "box.degenerate": 50, "schema.eleven_byte_names_sharing_ten": 20, "file.more_than_1000_records": 1}
 		},
 	})
 }
@@ -277,6 +277,27 @@ func genColumns(r *gen.R) []column {
 		}
 		cols = append(cols, col)
 	}
+	if len(cols) >= 2 && r.Chance(0.12) {
+		// names of the full 11 bytes a DBF field name can hold that share their first 10 bytes
+		stem := ""
+		for len(stem) < 10 {
+			stem += string(rune('a' + r.Intn(26)))
+		}
+		stem = strings.ToUpper(stem[:1]) + stem[1:]
+		for i := range cols {
+			if i >= 9 {
+				break
+			}
+			nm := stem + string(rune('1'+i))
+			cols[i].encName, cols[i].tag, cols[i].dbf = nm, "", nm
+			cols[i].decName, cols[i].decTag = nm, ""
+			if r.Chance(0.3) {
+				cols[i].decName, cols[i].decTag = "Q"+nm[:8]+string(rune('a'+i)), strings.ToUpper(nm)
+			}
+		}
+		longNames = true
+		return cols
+	}
 	if len(cols) >= 2 && r.Chance(0.15) {
 		// crossed tags: each of two fields is tagged with the other's (lower-cased) Go name, and
 		// the same struct is used for reading, so an attribute name equals one field's tag and,
@@ -291,8 +312,8 @@ func genColumns(r *gen.R) []column {
 	return cols
 }
 
-// crossed reports that the last genColumns call produced a crossed-tag pair.
-var crossed bool
+// crossed / longNames report what the last genColumns call produced.
+var crossed, longNames bool
 
 func goType(kind string) reflect.Type {
 	switch kind {
@@ -336,8 +357,11 @@ func run(c *core.Ctx, idx int) {
 	r := c.R
 	kind := kinds[r.Intn(len(kinds))]
 	structAPI := r.Bool()
-	crossed = false
+	crossed, longNames = false, false
 	cols := genColumns(r)
+	if longNames {
+		c.Count("schema.eleven_byte_names_sharing_ten")
+	}
 	if crossed {
 		c.Count("schema.crossed_tags_and_names")
 	}
